@@ -164,12 +164,17 @@ P("C15",
              "positions, ports, 63-bit counters, every event) are announced through the real HTTP and UDP tracker clients to scripted trackers that decode the request with "
              "their own code; every field must equal the torrent's, and the peer id must be the same 20 bytes the client presents to peers.",
   level_note="Trusted: harness/strk (own HTTP request-line/percent decoder, own BEP 15 decoder). The 'key' parameter is recorded in evidence, not asserted. "
-             "The event-discipline and interval clauses are decided by the announcer unit when listed.",
+             "Timers are real: spacing is judged with a 60 ms tolerance on the harness's own clock readings at the stub tracker. 'stopped only to trackers that accepted an announce' is decided by the session-level unit when listed.",
   technique="property-based testing (rapid): round trip through an independent decoder on the far side of a real socket",
   rule="transport {http, udp} x identity bytes x counters x event x numwant x tracker URLs with and without a query; every case is non-trivial (distinct = distinct case)",
   assumptions=["loopback UDP/TCP deliver datagrams/streams unmodified"],
   units=[
    U("c15.wire", "c15", "TestAnnounceWire", "announce fields on the wire == torrent identity and counters, both transports", Q(2000, 4), T(200000)),
+   U("c15.discipline", "c15", "TestDiscipline",
+     "6 PeriodicalAnnouncer runs per case (1.8 s, real timers, client minimum 300-500 ms) against stub trackers with generated reply sequences (ok with interval/min-interval in "
+     "{absent, 0, negative, tiny, huge}, failures with and without retry-in, delays) and generated complete / need-more-peers events: first event started, completed <= 1 and only "
+     "if completion happened during the run, never stopped, and consecutive no-event announces after a successful reply at least min(client minimum, positive tracker values) - 60 ms apart",
+     Q(48, 16, 900), T(1600, 16), shrinktime="8s"),
   ])
 
 P("C16",
@@ -188,4 +193,8 @@ P("C16",
    U("c16.tier", "c16", "TestTier", "tier member sequence == cyclic failover model, incl. concurrent announces", Q(20000, 4), T(2000000), min_nontrivial_frac=0.3),
    U("c16.httpreply", "c16", "TestHTTPReply", "HTTP reply bytes -> error or well-formed peers; bounded alloc and socket reads", Q(1600, 8), T(100000), env={"VERIF_JOURNAL": "1"}),
    U("c16.udpreply", "c16", "TestUDPReply", "UDP datagram sequences -> error or well-formed peers of the right transaction", Q(320, 8), T(20000), env={"VERIF_JOURNAL": "1"}),
+   U("c16.retry", "c16", "TestRetry",
+     "12 announcers per case whose first announces end without a reply (error, timeout, tracker failure, or a cancellation the announcer did not cause) + two torrents sharing one "
+     "UDP tracker connection where the owner of the pending connect request is stopped at a generated time: another announce must follow within the first back-off bound (7.5 s + 0.7 s slack)",
+     Q(8, 8, 900), T(160, 16), shrinktime="1s"),
   ])
